@@ -3,8 +3,11 @@
 package interpreter
 
 import (
+	"strconv"
+
 	"github.com/truora/minidyn/internal/nd"
 	"github.com/truora/minidyn/internal/vspec"
+	"github.com/truora/minidyn/types"
 )
 
 type vVals = map[string]vspec.Val
@@ -378,7 +381,25 @@ func VerifC07Update() {
 			}
 		}
 	}
+	// one more untargeted attribute, outside the reference model: a number beyond the int64 range, also
+	// nested; whatever the update does, its value stays
+	bigText := []string{"10000000000000000000", "-1e30", "0.1"}[nd.Choice("big-number", 3)]
+	b1, b2 := bigText, bigText
+	item["big"] = &types.Item{N: &b1}
+	item["bigs"] = &types.Item{L: []*types.Item{{N: &b2}}}
 	err := li.Update(UpdateInput{TableName: "t", Expression: t.text, Item: item, Attributes: vspec.ToItems(b, t.vals), Aliases: aliases})
+	sameBig := func(it *types.Item) bool {
+		if it == nil || it.N == nil {
+			return false
+		}
+		got, e1 := strconv.ParseFloat(*it.N, 64)
+		wantBig, e2 := strconv.ParseFloat(bigText, 64)
+		return e1 == nil && e2 == nil && got == wantBig
+	}
+	nd.Assert(sameBig(item["big"]), "C07-untargeted-large-number-keeps-value ["+t.text+"]")
+	nd.Assert(item["bigs"] != nil && len(item["bigs"].L) == 1 && sameBig(item["bigs"].L[0]), "C07-untargeted-nested-large-number-keeps-value ["+t.text+"]")
+	delete(item, "big")
+	delete(item, "bigs")
 	want := t.ref(pre, b)
 	if want == nil {
 		nd.Reach("unspecified")
